@@ -9,6 +9,8 @@ Cases (Hypothesis):
   chain      1..3 blocks linked by unconditional jumps through run_at.
   loop       counter := k (1..4); body; counter -= 1; IRDst := counter ? body : exit  through run_at
              (control flow the engine resolves because the counter is constant).
+  (random strata: half of the cases start from a given symbolic state -- constructor argument -- binding up to
+   3 registers / one memory cell to expressions; register vocabulary x86_32 / aarch64l / msp430 by shard)
   lifted     one random decodable / curated instruction of x86_16/32/64, ARM, Thumb, AArch64, MIPS32,
              PPC32, MSP430, MeP placed at an address, lifted with add_instr_to_ircfg, driven block by block
              with run_block_at until the destination is unresolved or leaves the instruction.
@@ -33,6 +35,7 @@ from vlib.timeout import call_with_limit, TimeLimit
 
 LIMIT_S = 20
 RANDOM_ARCH = "x86_32"
+RANDOM_ARCHS = ["x86_32", "aarch64l", "x86_32", "msp430"]     # register vocabulary of the random IR, by shard
 LIFT_ARCHS = ["x86_32", "x86_64", "x86_16", "arml", "armtl", "aarch64l", "mips32b", "ppc32b", "msp430", "mepb"]
 MAX_LIFT_BLOCKS = 12
 
@@ -286,21 +289,27 @@ def run_case(case, attribute=True):
     raw = RawCFG(lifter.loc_db, {keys[b["loc"]]: b["assignblks"] for b in graph["blocks"]}, lifter.IRDst)
     npairs = [len(ab) for b in graph["blocks"] for ab in b["assignblks"]]
     info["assignblks"] = len(npairs)
-    st0 = make_state(case["state"], pool(arch).all_regs() if arch == RANDOM_ARCH else list(lifter.arch.regs.all_regs_ids),
-                     lifter.addrsize)
-    irinterp.bind_locs(st0, lifter.loc_db, keys)
+    st0 = make_state(case["state"], pool(arch).all_regs(), lifter.addrsize)
     head = keys[graph["head"]]
     mode = case["mode"]
+    init = [(irgen.deser_expr(d), irgen.deser_expr(s)) if isinstance(d, str) else (d, s)
+            for d, s in case.get("init", [])]
+    info["init"] = len(init)
 
     def symbolic(simp=None):
         kw = {} if simp is None else {"sb_expr_simp": simp}
-        eng = engine_class()(lifter, **kw)
+        if init:
+            # documented constructor argument: the state the execution starts from
+            eng = engine_class()(lifter, dict(init), **kw)
+            eng.accesses += [("w", d) for d, _ in init if d.is_mem()]
+        else:
+            eng = engine_class()(lifter, **kw)
         extra = []
         if mode == "assignblk":
             ab = ircfg.blocks[head][0]
             # read-only evaluation first: must not change the state, result applied below must agree
             pre = eng.eval_assignblk(ab)
-            if list(eng.symbols.items()):
+            if not init and list(eng.symbols.items()):
                 extra.append(("eval_assignblk-mutates", "state after eval_assignblk: %s" % eng.symbols.items()))
             eng.eval_updt_assignblk(ab)
             eng.blocks_run.append(head)
@@ -315,10 +324,10 @@ def run_case(case, attribute=True):
             dst = eng.run_at(ircfg, head)
         return eng, dst, extra
     return judge(case, info, symbolic, raw, head, st0, pool(arch).all_regs(), "%s:%s" % (kind, mode), attribute,
-                 lifter.addrsize, mode != "assignblk")
+                 lifter.addrsize, init)
 
 
-def judge(case, info, symbolic, cfg, head, st0, regs, tag, attribute, addrsize, has_dst=True):
+def judge(case, info, symbolic, cfg, head, st0, regs, tag, attribute, addrsize, init=()):
     from vlib import irinterp
     pairs = [p for blk in cfg.blocks.values() for ab in blk for p in irinterp._pairs(ab)]
     if has_unaligned_mem(pairs):
@@ -330,47 +339,65 @@ def judge(case, info, symbolic, cfg, head, st0, regs, tag, attribute, addrsize, 
     info["mem_writes"] = sum(1 for d, _ in pairs if (d.arg if d.__class__.__name__ == "ExprSlice" else d)
                              .__class__.__name__ == "ExprMem")
     rec, simp = recorder()
-    try:
-        eng, dst_sym, extra = call_with_limit(LIMIT_S, symbolic)
-    except TimeLimit:
-        simp.cache.clear()
-        raise Drop("time-limit")
-    except Exception as ex:
-        return [("%s:exception:%s@%s" % (tag, type(ex).__name__, _where(ex)), "engine raised %r" % ex)], info
-    nb = len(eng.blocks_run)
-    info["blocks_run"] = nb
-    conflict = alias_conflict(eng.accesses, st0.env())
-    if conflict:
-        raise Drop("aliasing symbolic bases")
-    irinterp.bind_locs(st0, cfg.loc_db, irinterp.loc_keys_of(cfg))
-    st1 = st0.copy()
-    try:
-        run = irinterp.run_ircfg(cfg, head, st1, max_steps=2000, max_blocks=nb)
-    except Undefined:
-        raise Drop("division by zero in the concrete execution")
-    except irinterp.DomainError:
-        raise Drop("IR outside the interpreter's domain")
-    fails = list(extra)
-    if run.path != eng.blocks_run:
-        fails.append(("path", "engine followed %s, concrete execution %s" % (eng.blocks_run, run.path)))
-    else:
+    irinterp.bind_locs(st0, cfg.loc_db, irinterp.loc_keys_of(cfg), cfg.IRDst.size)
+
+    def evaluate(engine_simp=None):
+        """-> [(kind, detail)]; raises Drop"""
         try:
-            fails += compare(eng, dst_sym if has_dst else None, st0, st1, run.dst, regs, tag)
+            eng, dst_sym, extra = call_with_limit(LIMIT_S, symbolic, engine_simp)
+        except TimeLimit:
+            simp.cache.clear()
+            raise Drop("time-limit")
+        except Exception as ex:
+            return [("exception:%s@%s" % (type(ex).__name__, _where(ex)), "engine raised %r" % ex)]
+        nb = len(eng.blocks_run)
+        info["blocks_run"] = nb
+        if alias_conflict(eng.accesses, st0.env()):
+            raise Drop("aliasing symbolic bases")
+        st1 = st0.copy()
+        try:
+            if init:
+                # the given symbolic state, read under the initial valuation, is where the concrete run starts
+                irinterp.run_assignblk(init, st1)
+            run = irinterp.run_ircfg(cfg, head, st1, max_steps=2000, max_blocks=nb)
         except Undefined:
-            raise Drop("division by zero in a symbolic result")
-    info["cond_dst"] = dst_sym is not None and dst_sym.is_cond()
+            raise Drop("division by zero in the concrete execution")
+        except irinterp.DomainError:
+            raise Drop("IR outside the interpreter's domain")
+        fails = list(extra)
+        if run.path != eng.blocks_run:
+            fails.append(("path", "engine followed %s, concrete execution %s" % (eng.blocks_run, run.path)))
+        else:
+            try:
+                fails += compare(eng, dst_sym, st0, st1, run.dst, regs, tag)
+            except Undefined:
+                raise Drop("division by zero in a symbolic result")
+        info["cond_dst"] = dst_sym is not None and dst_sym.is_cond()
+        return fails
+    fails = evaluate()
     if not fails:
         return [], info
-    out = []
-    rule = None
+    prefix = tag
     if attribute:
         rule = attribute_simplifier(symbolic, st0)
-    for k, d in fails:
-        b = "%s:%s" % (tag, k)
         if rule:
-            b = "via-simplifier:%s:%s" % (rule, k)
-        out.append((b, d))
-    return out, info
+            prefix = "via-simplifier:" + rule
+        else:
+            # fallback asked by the main session: the discrepancy disappears when the engine is given a
+            # pass-free simplifier (only conclusive when that run is clean; the engine's memory relies on
+            # constant folding, so a crash or another discrepancy there proves nothing)
+            keep = dict(info)
+            try:
+                from miasm.expression.simplifications import ExpressionSimplifier
+                if evaluate(ExpressionSimplifier()) == []:
+                    prefix = "via-simplifier:unattributed:" + tag
+            except Drop:
+                pass
+            except Exception:
+                pass
+            info.clear()
+            info.update(keep)
+    return [("%s:%s" % (prefix, k), d) for k, d in fails], info
 
 
 def attribute_simplifier(symbolic, st0):
@@ -406,7 +433,8 @@ def run_lifted(case, info, attribute):
         raise Drop("undecodable")
     mach = machine(arch.name)
     loc_db = LocationDB()
-    instr.offset = case["addr"]
+    # the address must fit the program counter (16-bit for msp430 / x86_16)
+    instr.offset = case["addr"] & mask(mach.lifter(LocationDB()).IRDst.size)
     info["mnemonic"] = instr.name
     import contextlib
     import io
@@ -454,32 +482,60 @@ def run_lifted(case, info, attribute):
 # ----------------------------------------------------------------------------------------------
 # generation
 
-def random_case_strategy(kind):
+def random_case_strategy(kind, arch=RANDOM_ARCH):
     from hypothesis import strategies as st
     from vlib import irgen
-    p = pool()
+    p = pool(arch)
     sz = p.irdst.size
+
+    @st.composite
+    def init_state(draw):
+        """0..3 bindings register / @w[reg + const] -> expression over the initial symbols (half of the cases: none)"""
+        import miasm.expression.expression as m
+        if draw(st.booleans()):
+            return []
+        out = []
+        used = set()
+        n = p.addrsize
+        for _ in range(draw(st.integers(1, 3))):
+            if draw(st.integers(0, 3)) == 0 and not any(d.is_mem() for d, _ in out):
+                base = draw(st.sampled_from(p.ptr_regs))
+                c = draw(st.sampled_from(irgen.CONSTS)) & ((1 << n) - 1)
+                dst = m.ExprMem(m.ExprOp('+', base, m.ExprInt(c, n)) if c else base, draw(st.sampled_from([8, 16, 32, 64])))
+            else:
+                dst = draw(st.sampled_from(p.all_regs()))
+                if dst.name in used:
+                    continue
+                used.add(dst.name)
+            out.append((dst, draw(irgen.simple_src(p, dst.size))))
+        return out
+
+    def with_init(draw, case):
+        ini = draw(init_state())
+        if ini:
+            case["init"] = ini
+        return case
 
     @st.composite
     def par(draw):
         hz, pairs = draw(irgen.assignblk(p, depth=draw(st.integers(1, 2))))
         g = {"blocks": [{"loc": 0, "assignblks": [pairs + [(p.irdst, irgen.loc(1, sz))]]}], "head": 0, "nlocs": 2}
-        return {"kind": "parallel", "mode": "assignblk", "hazard": hz, "graph": g, "state": draw(state_strategy())}
+        return with_init(draw, {"kind": "parallel", "mode": "assignblk", "arch": arch, "hazard": hz, "graph": g, "state": draw(state_strategy())})
 
     @st.composite
     def block(draw):
         g = draw(irgen.chain(p, nblocks=(1, 1), depth=draw(st.integers(1, 2))))
-        return {"kind": "block", "mode": "irblock", "graph": g, "state": draw(state_strategy())}
+        return with_init(draw, {"kind": "block", "mode": "irblock", "arch": arch, "graph": g, "state": draw(state_strategy())})
 
     @st.composite
     def chain(draw):
         g = draw(irgen.chain(p, nblocks=(2, 3), depth=draw(st.integers(1, 2))))
-        return {"kind": "chain", "mode": "run_at", "graph": g, "state": draw(state_strategy())}
+        return with_init(draw, {"kind": "chain", "mode": "run_at", "arch": arch, "graph": g, "state": draw(state_strategy())})
 
     @st.composite
     def loop(draw):
         g = draw(irgen.counted_loop(p, depth=1))
-        return {"kind": "loop", "mode": "run_at", "graph": g, "state": draw(state_strategy())}
+        return with_init(draw, {"kind": "loop", "mode": "run_at", "arch": arch, "graph": g, "state": draw(state_strategy())})
     return {"parallel": par, "block": block, "chain": chain, "loop": loop}[kind]()
 
 
@@ -511,6 +567,9 @@ def case_to_json(case):
     c = dict(case)
     if not is_serialised(case["graph"]):
         c["graph"] = irgen.ser_graph(case["graph"])
+    if case.get("init"):
+        c["init"] = [[d if isinstance(d, str) else irgen.ser_expr(d), s if isinstance(s, str) else irgen.ser_expr(s)]
+                     for d, s in case["init"]]
     return c
 
 
@@ -522,12 +581,13 @@ def nontrivial(case, info):
     return case["kind"] == "lifted" and info.get("cond_dst", False)
 
 
-PLAN_Q = [("parallel", 110), ("block", 90), ("chain", 60), ("loop", 50)]
+PLAN_Q = [("parallel", 60), ("block", 40), ("chain", 30), ("loop", 25)]     # cases per shard, quick tier
 
 
 class C12(Check):
     pid = "C12"
-    rule = ("Hypothesis. Random IR over the x86_32 lifter's registers (vlib.irgen): 'parallel' = one AssignBlock from "
+    rule = ("Hypothesis. Random IR over the registers of the x86_32 / aarch64l / msp430 lifters (vlib.irgen), starting from "
+            "the empty or a given symbolic state: 'parallel' = one AssignBlock from "
             "a hazard template (swap, 3-rotation, read-after-write, disjoint slices, store with reassigned pointer, "
             "load of the stored cell, two stores) through eval_assignblk + eval_updt_assignblk; 'block' = 1..4 "
             "AssignBlocks + destination through eval_updt_irblock; 'chain' = 2..3 blocks through run_at; 'loop' = "
@@ -554,13 +614,13 @@ class C12(Check):
 
     def plan(self, tier, shard, nshards):
         """-> list of (stratum, arch or None, n)"""
-        mult = 12 if tier == "thorough" else 1
-        jobs = [(k, None, n * mult // 4) for k, n in PLAN_Q]
+        mult = 10 if tier == "thorough" else 1
+        jobs = [(k, RANDOM_ARCHS[shard % len(RANDOM_ARCHS)], n * mult) for k, n in PLAN_Q]
         arch = LIFT_ARCHS[shard % len(LIFT_ARCHS)]
         arch2 = LIFT_ARCHS[(shard * 3 + 1) % len(LIFT_ARCHS)]
-        jobs.append(("lifted", arch, 60 * mult))
+        jobs.append(("lifted", arch, 100 * mult))
         if arch2 != arch:
-            jobs.append(("lifted", arch2, 30 * mult))
+            jobs.append(("lifted", arch2, 50 * mult))
         return jobs
 
     def run_shard(self, tier, seed, shard, nshards):
@@ -574,11 +634,13 @@ class C12(Check):
             except Drop as d:
                 res.dropped["%s: %s" % (case["kind"], d.reason)] += 1
                 return
-            res.counters["cases:" + case["kind"] + (":" + case["arch"] if case["kind"] == "lifted" else "")] += 1
+            res.counters["cases:%s:%s" % (case["kind"], case["arch"])] += 1
             if case["kind"] == "parallel":
                 res.counters["hazard:" + case["hazard"]] += 1
             if info.get("mem_writes"):
                 res.counters["with-memory-write"] += 1
+            if info.get("init"):
+                res.counters["with-initial-symbolic-state"] += 1
             if info.get("cond_dst"):
                 res.counters["conditional-destination"] += 1
             if info.get("blocks_run", 0) > 1:
@@ -593,7 +655,7 @@ class C12(Check):
             if cnt[0] % 400 == 0:
                 recorder()[1].cache.clear()
         for stratum, arch, n in self.plan(tier, shard, nshards):
-            strat = lifted_case_strategy(arch) if stratum == "lifted" else random_case_strategy(stratum)
+            strat = lifted_case_strategy(arch) if stratum == "lifted" else random_case_strategy(stratum, arch)
             hyp.survey(strat, n, derive_seed(seed, stratum, arch), one)
         return res
 
@@ -616,14 +678,17 @@ class C12(Check):
             return failure
         from vlib import irgen
 
-        def buckets(c):
+        want = failure.bucket.rsplit(":", 1)[-1]      # what differs (reg / mem-cell / dst / path / ...)
+
+        def kinds(c):
+            # no attribution run while shrinking (3x cheaper); the final case is re-judged in full below
             try:
-                return [b for b, _ in run_case(c)[0]]
+                return [b.rsplit(":", 1)[-1] for b, _ in run_case(c, attribute=False)[0]]
             except Drop:
                 return []
             except Exception:
                 return []
-        best = shrink_graph_case(case, lambda c: failure.bucket in buckets(c), 250 if tier == "quick" else 1500)
+        best = shrink_graph_case(case, lambda c: want in kinds(c), 150 if tier == "quick" else 1000)
         try:
             fails, _ = run_case(best)
         except Drop:
